@@ -534,10 +534,14 @@ def prog_text(prog):
 class Exec:
     """one program on one fresh network"""
 
-    def __init__(self, nodes, max_qubits, max_regs, ideal2=False):
+    def __init__(self, nodes, max_qubits, max_regs, ideal2=False, lenient=False):
         global _BOOK
         instrument()
         self.k, self.mq, self.mr = nodes, max_qubits, max_regs
+        # lenient: a held-count mismatch does not end the program (the directed "freed capacity is reusable"
+        # scenarios go on to the create / receive that needs the freed slot, judged against the independent count)
+        self.lenient = bool(lenient)
+        self.miscount = [0] * nodes          # len(virtQubits) - independent count, per node, after the last op
         self.names = NAMES[:nodes]
         self.book = _BOOK = Book(self.names)
         self.net = S.SimNet(self.names, max_qubits=max_qubits, max_regs=max_regs, rng=random.Random(0))
@@ -557,7 +561,10 @@ class Exec:
         self.seen = set()        # (kind, key) already recorded for this program
 
     def header(self):
-        return {"nodes": self.k, "max_qubits": self.mq, "max_regs": self.mr}
+        h = {"nodes": self.k, "max_qubits": self.mq, "max_regs": self.mr}
+        if self.lenient:
+            h["lenient"] = 1
+        return h
 
     def program(self):
         p = self.header()
@@ -630,7 +637,9 @@ class Exec:
             sc, st = self._sim(hc), self._sim(ht)
             if hc is ht:
                 loc = "local" if sc == a else "remote"
-                return dict(cell="g2:same-qubit:%s" % loc, exp={"ValueError", "quantumError"}, cause="same",
+                # the harness runs the stabilizer backend, whose documented class here is ValueError
+                # (quantumError is what the projectq engine raises for the same cause)
+                return dict(cell="g2:same-qubit:%s" % loc, exp={"ValueError"}, cause="same",
                             remote=loc == "remote", place="same-qubit-" + loc)
             rc, rt = self._reg(hc), self._reg(ht)
             if sc == st:
@@ -899,9 +908,26 @@ class Exec:
 
         # ---- C02: population accounting (plain counters vs the real lists)
         post_held = [len(net.nodes[n].virtQubits) for n in names]
-        if post_held != ref.count:
+        miscount = [a - b for a, b in zip(post_held, ref.count)]
+        if post_held != ref.count and (not self.lenient or miscount != self.miscount):
             fail("population", "%s:%s:population" % (k, "refused" if cls else ("ignored" if exp == "nil" else "done")),
-                 "%s: held per node %s -> %s, accounting says %s" % (what_op, pre_held, post_held, ref.count), hard=True)
+                 "%s: held per node %s -> %s, accounting says %s" % (what_op, pre_held, post_held, ref.count),
+                 hard=not self.lenient)
+        # ---- C07: the node's own list of held qubits against the independent counter.  An entry that stays behind (or
+        # goes missing) is capacity that is not freed (or is handed out twice): every later create / receive at that
+        # node is decided on the wrong number.  Reported for the op that made the difference, keyed by its placement.
+        if miscount != self.miscount:
+            for j, (d0, d1) in enumerate(zip(self.miscount, miscount)):
+                if d1 != d0:
+                    fail("capacity", "held-count-mismatch:%s:%s" % (k, place),
+                         "%s: %s lists %d held qubits (max %d), the independent count says %d (%s): %s" % (
+                             what_op, names[j], post_held[j], self.mq, ref.count[j],
+                             "an entry stays behind; the capacity it occupies is not reusable" if d1 > d0 else
+                             "an entry is missing; the node can exceed its maximum",
+                             "held per node %s -> %s, counted %s" % (pre_held, post_held, ref.count)),
+                         hard=not self.lenient)
+                    break
+        self.miscount = miscount
         # ---- C02 (C06, C07): well-formedness of the real graph
         for kind, key, text in wf(net, self.book):
             if kind == "stale":
@@ -943,7 +969,7 @@ def _deep_text(deep):
 
 
 def run_program(prog, ideal2=False):
-    ex = Exec(prog["nodes"], prog["max_qubits"], prog["max_regs"], ideal2=ideal2)
+    ex = Exec(prog["nodes"], prog["max_qubits"], prog["max_regs"], ideal2=ideal2, lenient=prog.get("lenient", False))
     for op in prog["ops"]:
         if ex.dead:
             break
@@ -1295,8 +1321,10 @@ def gen_program(profile, seed, cov, caps=None, ideal2=False):
 class P:
     """tiny builder of static programs"""
 
-    def __init__(self, nodes, mq=5, mr=100):
+    def __init__(self, nodes, mq=5, mr=100, lenient=False):
         self.p = {"nodes": nodes, "max_qubits": mq, "max_regs": mr, "ops": []}
+        if lenient:
+            self.p["lenient"] = 1
         self.n = 0
 
     def new(self, a, *prep):
@@ -1498,6 +1526,106 @@ def corpus():
     p.meas(a1, 0, 1)
     p.meas(c, 0, 0)
     add("stale", p)
+    return out
+
+
+# -- C07: "capacity freed by measuring or sending is immediately reusable ... irrespective of where its qubits
+# are simulated".  Directed scenarios: Bob is filled to his maximum with qubits of one PLACEMENT (where / how they are
+# simulated) plus one filler, one slot is freed by a destructive measurement or by a send, and the very next
+# operations are a create at Bob and an arrival at Bob, which must both be accepted (then Bob is full again and the
+# next create must be refused).  Nothing is expected here by hand: `Exec.classify` derives every expectation from the
+# independent counter, these programs only steer the real code into the placements.
+
+def _place_local(p):
+    return [p.new(1, "H")]
+
+
+def _place_sender(p):                     # simulated at the peer that sent it
+    return [p.send(p.new(0, "H"), 1)]
+
+
+def _place_third(p):                      # simulated at Charlie, handed on by Alice
+    return [p.send(p.send(p.new(2, "K"), 0), 1)]
+
+
+def _place_merged_local(p):               # two qubits of one local register
+    a, b = p.new(1, "H"), p.new(1)
+    p.g2(a, b)
+    return [a, b]
+
+
+def _place_merged_remote(p):              # two qubits of one register at the sender
+    a, b = p.new(0, "H"), p.new(0)
+    p.g2(a, b)
+    return [p.send(a, 1), p.send(b, 1)]
+
+
+def _place_merged_pulled(p):              # a received qubit whose register was pulled to Bob by a two-qubit gate
+    l, x = p.new(1, "H"), p.send(p.new(0, "K"), 1)
+    p.g2(l, x)
+    return [x, l]
+
+
+def _place_merged_split(p):               # one qubit of a two-qubit register at Alice, who keeps the partner
+    a, b = p.new(0, "H"), p.new(0)
+    p.g2(a, b, "CPHASE")
+    return [p.send(a, 1)]
+
+
+def _place_merged_third(p):               # two qubits of one register at Charlie, handed on by Alice
+    a, b = p.new(2, "H"), p.new(2)
+    p.g2(b, a)
+    a0, b0 = p.send(a, 0), p.send(b, 0)
+    return [p.send(a0, 1), p.send(b0, 1)]
+
+
+PLACEMENTS = [("local", _place_local), ("sender-simulated", _place_sender), ("third-node-simulated", _place_third),
+              ("merged-local", _place_merged_local), ("merged-at-sender", _place_merged_remote),
+              ("merged-pulled", _place_merged_pulled), ("merged-split", _place_merged_split),
+              ("merged-at-third-node", _place_merged_third)]
+
+
+def reuse_corpus():
+    """[(name, program)]: holder = Bob (node 1), Alice = the peer, Charlie = third node / source of arrivals"""
+    out = []
+    n = 0
+    for pname, build in PLACEMENTS:
+        for fname, filler in (("local", _place_local), ("sender-simulated", _place_sender)):
+            for free in ("meas", "send"):
+                for first in ("new", "recv"):
+                    n += 1
+                    slots = 2 if pname.startswith("merged") and pname != "merged-split" else 1
+                    p = P(3, mq=slots + 1, mr=100 if n % 2 else 3, lenient=True)
+                    qs = build(p)
+                    qs += filler(p)
+                    p.new(1)                                    # Bob is full: refused
+                    p.send(p.new(2, "X"), 1)                    # ... and so is an arrival (Charlie keeps it, measures it)
+                    p.meas(p.n - 2, 0, 1)
+
+                    def refill(kind):
+                        if kind == "new":
+                            return p.new(1, "K")
+                        return p.send(p.new(2, "H"), 1)
+
+                    def release(h, to):
+                        if free == "meas":
+                            p.meas(h, 0, 1)
+                        else:
+                            p.send(h, to)
+                    release(qs[0], 0)
+                    r1 = refill(first)                          # the freed slot is immediately reusable ...
+                    p.new(1)                                    # ... and only that one
+                    release(r1, 2)
+                    r2 = refill("recv" if first == "new" else "new")
+                    p.send(p.new(2), 1)
+                    p.meas(p.n - 2, 0, 0)
+                    # free every remaining original slot in turn (filler last), refilling alternately
+                    kinds = ["new", "recv"]
+                    for j, h in enumerate(qs[1:]):
+                        p.meas(h, 0, j % 2)
+                        refill(kinds[(j + (first == "recv")) % 2])
+                    p.new(1)
+                    out.append(("reuse:%s:filler-%s:%s:%s-first" % (pname, fname, free, first), p.p))
     return out
 
 
@@ -1872,7 +2000,7 @@ RULES = {
            "(new +1, destructive measure -1, send moves one, everything else incl. every refused op 0)",
     "C05": "every op whose result is an error leaves graph snapshot AND generator matrices literally unchanged, all locks free, "
            "the class is the documented one (capacity noQubitError, unknown node virtNetError, unsupported gate "
-           "SimUnsupportedError, register limit quantumError, identical control/target ValueError|quantumError), and the "
+           "SimUnsupportedError, register limit quantumError, identical control/target ValueError on the stabilizer backend), and the "
            "program continues to match the single-register reference",
     "C06": "every op kind through every handle that left its node (sent / measured destructively), as either argument of a "
            "two-qubit gate, returns None and leaves snapshot, generator matrices and reference state unchanged; a handle that "
@@ -1896,6 +2024,8 @@ def build_jobs(ctx, prop):
     rng = ctx.rng
     nprog = ctx.scale(400, 6000)
     jobs = [("static", name, p, True) for name, p in corpus()]
+    if prop == "C07":
+        jobs += [("static", name, p, True) for name, p in reuse_corpus()]
     grid_i = 0
     for profile, share in PLAN[prop]:
         for _ in range(int(nprog * share)):
